@@ -140,6 +140,21 @@ func (s *sampler) sampleBig(r *Rule) {
 				s.out = append(s.out, '\n')
 			}
 		}
+	case "choice":
+		// half of the time an alternative next to a power of two (the 64th, the 128th, ...)
+		i := U(s.t, len(e.Sub), "bigalt")
+		if U(s.t, 2, "bigaltedge") == 0 {
+			var edges []int
+			for _, p := range []int{64, 128, 256} {
+				for d := -2; d <= 1; d++ {
+					if p+d < len(e.Sub) {
+						edges = append(edges, p+d)
+					}
+				}
+			}
+			i = Pick(s.t, edges, "bigaltedgeidx")
+		}
+		s.walk(e.Sub[i], 0)
 	case "chain":
 		// mostly to the full depth: the choice picks the recursive alternative when deep
 		s.walk(e, 9)
